@@ -30,7 +30,20 @@
 //! `vf-expr/src/rexpr.rs` (not vf-kit) because the AST is this crate's; float division by zero, non-finite
 //! results, −MIN, MIN % −1 and implementation-defined cast roundings are "unspecified" rows rather than modelled.
 //!
-//! Sensitivity probes (mutrun, quick tier): see the end of this header (filled in after probing).
+//! Also: the table is laid out `repeat` (1–40) times one after the other (≤ 200 rows) so that tiny cross products
+//! still give arrays crossing 64-bit bitmap words and exercise AND/OR pre-selection ratios.
+//! Observed, not claimed: `NULL::utf8 IN ()` plans to NULL (planner special case for a literal Utf8 NULL needle)
+//! while every other NULL needle with an empty list gives FALSE — empty IN lists with constant needles are not
+//! generated; `NegativeExpr` wraps for arrays but fails on overflow for scalars (−MIN is an unspecified row here).
+//!
+//! Sensitivity probes (one mutrun build, /verif/probes/vf-expr/all-probes-env-guarded.diff, each mutation switched
+//! on by VF_PROBE, `./check C33 quick`; unmutated run exit 0):
+//! * m1 `BranchlessFilter::contains` passes `haystack_has_nulls = false` (NOT IN ignores a NULL list item)
+//!   → VIOLATION after 89 cases: `c22 NOT IN (NULL, date)` engine TRUE, SQL NULL;
+//! * m2 AND pre-selection scatters with `fill_value = true` → VIOLATION after 1 327 cases
+//!   (found through `evaluate_selection`: engine TRUE, SQL NULL);
+//! * m3 searched CASE drops rows whose WHEN is NULL from the remainder (`not(when)` without
+//!   `prep_null_mask_filter`) → VIOLATION after 26 cases: engine NULL, SQL 0.
 use crate::ast::*;
 use crate::df::*;
 use crate::egen::{self, G, GenCfg};
